@@ -33,6 +33,7 @@ func runC05(c *an.Ctx) {
 	ruleR4(c)
 	ruleR5(c)
 	ruleR6(c)
+	ruleR7(c)
 }
 
 func callNamed(in ssa.Instruction, name string) (ssa.CallInstruction, bool) {
@@ -697,4 +698,65 @@ func ruleR6(c *an.Ctx) {
 		Barrier: func(x ssa.Instruction) bool { return md.Instr(x, 0) }}.Find()
 	c.Check("R6", "state-fresh-after-reset@(*Node).reset", reset.Pos(), w == nil,
 		"RestartLocalJobs picks nodes by the cached Node.state; a successful (*Node).reset must re-derive it (Node.state = getState(), directly or through loadMetadata) or the just-reset node keeps its stale Failed state and its orphaned jobs are never restarted; "+c.WitnessString(w))
+}
+
+// R7: the dual of R2 - unfinished work found at restart IS reset.  R2 says a reset happens only
+// under its condition; a restart that does not reset a job which can never finish leaves the
+// pipestance waiting forever.  In each of the three restart entry points, once its condition holds
+// on an edge, every path to the entry point's return passes Metadata.uncheckedReset:
+//   checkedReset:       state == Failed
+//   restartQueuedLocal: exists(queued_locally)
+//   restartLocal:       state == Queued;  Signal(0) on the recorded pid returned an error
+// (mustAfterEdge: conditions in predicate helpers are expanded, verdict-returning helpers followed).
+func ruleR7(c *an.Ctx) {
+	p := c.P
+	unchecked := c.NeedFunc(pkgCore, "(*Metadata).uncheckedReset")
+	if unchecked == nil {
+		return
+	}
+	stateOf := func(v ssa.Value) bool {
+		ex, ok := v.(*ssa.Extract)
+		if !ok || ex.Index != 0 {
+			return false
+		}
+		cl, ok := ex.Tuple.(*ssa.Call)
+		return ok && cl.Call.StaticCallee() != nil && (cl.Call.StaticCallee().Name() == "_getStateNoLock" || cl.Call.StaticCallee().Name() == "getState")
+	}
+	stIs := func(name string) func(an.Rel) bool {
+		return func(r an.Rel) bool { return relEq(r, stateOf, func(v ssa.Value) bool { return isState(p, v, name) }) }
+	}
+	resets := func(in ssa.Instruction) bool { return an.CalleeIs(in, unchecked) }
+	type inst struct {
+		fn, what string
+		cond     func(an.Rel) bool
+	}
+	for _, it := range []inst{
+		{"(*Metadata).checkedReset", "state == Failed", stIs("Failed")},
+		{"(*Metadata).restartQueuedLocal", "exists(queued_locally)", func(r an.Rel) bool {
+			return r.Op == token.ILLEGAL && r.Truth && existsCallOf(p, r.X, "QueuedLocally")
+		}},
+		{"(*Metadata).restartLocal", "state == Queued", stIs("Queued")},
+		{"(*Metadata).restartLocal", "pid does not answer signal 0", func(r an.Rel) bool {
+			if r.Op != token.NEQ || !an.IsNil(r.Y) {
+				return false
+			}
+			cl, ok := r.X.(*ssa.Call)
+			return ok && cl.Call.StaticCallee() != nil && cl.Call.StaticCallee().Name() == "Signal"
+		}},
+	} {
+		fn := c.NeedFunc(pkgCore, it.fn)
+		if fn == nil {
+			continue
+		}
+		n, pos, why := mustAfterEdge(p, fn, it.cond, resets)
+		key := "reset-follows(" + it.what + ")@" + it.fn
+		if n == 0 {
+			c.Info("R7", key, fn.Pos(), "no edge with this condition found in the entry point or its private helpers; not decided")
+			continue
+		}
+		if pos == token.NoPos {
+			pos = fn.Pos()
+		}
+		c.Check("R7", key, pos, why == "", "once "+it.what+" holds, every path to the entry point's return must reset the metadata object (the job can never finish otherwise and the restarted pipestance waits forever): "+why)
+	}
 }
